@@ -12,9 +12,10 @@ from .num import LD, binom, dfact
 class RefShell:
     """Abstract generalized-contraction shell (the 'model' side of a configuration)."""
 
-    __slots__ = ("l", "center", "exps", "coeffs", "ctype", "cart_order", "sph_order")
+    __slots__ = ("l", "center", "exps", "coeffs", "ctype", "cart_order", "sph_order", "icenter")
 
-    def __init__(self, l, center, exps, coeffs, ctype, cart_order=None, sph_order=None):
+    def __init__(self, l, center, exps, coeffs, ctype, cart_order=None, sph_order=None, icenter=None):
+        self.icenter = icenter
         self.l = int(l)
         self.center = tuple(float(x) for x in center)
         self.exps = tuple(float(x) for x in exps)
@@ -53,7 +54,7 @@ class RefShell:
 
     def with_(self, **kw):
         d = dict(l=self.l, center=self.center, exps=self.exps, coeffs=self.coeffs, ctype=self.ctype,
-                 cart_order=self.cart_order, sph_order=self.sph_order)
+                 cart_order=self.cart_order, sph_order=self.sph_order, icenter=self.icenter)
         d.update(kw)
         return RefShell(**d)
 
@@ -64,12 +65,14 @@ class RefShell:
             d["cart_order"] = [list(c) for c in self.cart_order]
         if self.sph_order is not None:
             d["sph_order"] = list(self.sph_order)
+        if self.icenter is not None:
+            d["icenter"] = self.icenter
         return d
 
     @staticmethod
     def from_json(d):
         return RefShell(d["l"], d["center"], d["exps"], d["coeffs"], d["ctype"],
-                        d.get("cart_order"), d.get("sph_order"))
+                        d.get("cart_order"), d.get("sph_order"), d.get("icenter"))
 
 
 def cart_comps(l):
